@@ -32,6 +32,7 @@ def check(ctx, prog):
     engine.rule_queue_writers(ctx, prog, thorough=thorough)
     shaving.rule_shave_bound(ctx, prog)  # scope: the un-probing re-queues the watchers of the bound it removed
     shaving.rule_shaving_loop(ctx, prog)  # scope: what shaving hands back is a propagated state with the status of its last pass
+    propagators.rule_two_sided(ctx, prog)  # both bounds of a count reach a failure exit
     marks.rule_mark_reuse(ctx, prog)  # a mark array is cleared between a verdict and the next marking pass (the second reachability test of scc)
     kinds.rule_count_kind(ctx, prog)
     kinds.rule_index_kind(ctx, prog)  # a number is a variable index or a shared-domain index, not both
